@@ -191,6 +191,17 @@ func VerifC07_CandidateMatrix() {
 	}
 	if nodeBlock == nbNominated {
 		cluster.NominateNodeForPod(ctx, pid)
+		// an ordinary update of the Node or the NodeClaim arriving afterwards does not end the nomination
+		switch verifrt.Choice("updateAfterNomination", 0, 2) {
+		case 1:
+			node.Annotations = map[string]string{"example.com/touched": "true"}
+			verifrt.Assert(cluster.UpdateNode(ctx, node) == nil, "the node update is accepted by cluster state")
+		case 2:
+			if nc != nil {
+				nc.Annotations = map[string]string{"example.com/touched": "true"}
+				cluster.UpdateNodeClaim(nc)
+			}
+		}
 	}
 	if buffer {
 		cluster.UpdateBufferPodCounts(map[string]int{pid: 1})
